@@ -83,6 +83,10 @@ func ConfigureServeMux(s *http.ServeMux, conf *config.Config, router proxy.Route
 	s.HandleFunc("/", cachingHandler(router, logger, conf, cache))
 }
 
+// maxRedirects is the number of redirects restart_on_redirect follows for one client request
+// before it answers 508 Loop detected (the same bound net/http's client uses).
+const maxRedirects = 10
+
 func cachingHandler(router proxy.Router, logger *apexlog.Logger, conf *config.Config, cache caching.Cache) func(http.ResponseWriter, *http.Request) {
 	return func(ow http.ResponseWriter, or *http.Request) {
 		m := mets.NewMetrics(or.URL.RequestURI(), nil, nil)
@@ -90,6 +94,8 @@ func cachingHandler(router proxy.Router, logger *apexlog.Logger, conf *config.Co
 		defer m.ReportAndClose(time.Now())
 		defer sentry.Recover()
 
+		// redirects counts the redirects followed so far on behalf of this client request
+		redirects := 0
 		var cachingFunc func(*http.ResponseWriter, *http.Request, *url.URL, *http.Header, *proxy.RoutingFlavors, bool)
 		cachingFunc = func(w *http.ResponseWriter, r *http.Request, overrideURL *url.URL, alwaysInclude *http.Header, frf *proxy.RoutingFlavors, skipRevalidate bool) {
 			logctx := logger.WithFields(apexlog.Fields{"url": r.URL, "func": "server.cachingHandler"})
@@ -113,6 +119,12 @@ func cachingHandler(router proxy.Router, logger *apexlog.Logger, conf *config.Co
 
 				if reqres.RedirectedURL != nil && rf.RestartOnRedirect {
 					if urlEquals(reqres.RedirectedURL, r.URL) {
+						err = usererror.CreateError(508, "Loop detected")
+						writeError(*w, err)
+						return
+					}
+					redirects++
+					if redirects > maxRedirects {
 						err = usererror.CreateError(508, "Loop detected")
 						writeError(*w, err)
 						return
@@ -209,6 +221,12 @@ func cachingHandler(router proxy.Router, logger *apexlog.Logger, conf *config.Co
 						writeError(*w, err)
 						return
 					}
+					redirects++
+					if redirects > maxRedirects {
+						cache.Finish(key, logger)
+						writeError(*w, usererror.CreateError(508, "Loop detected"))
+						return
+					}
 					cachingFunc(w, rr, rr.URL, nil, &rf, false)
 					return
 				}
@@ -287,6 +305,11 @@ func cachingHandler(router proxy.Router, logger *apexlog.Logger, conf *config.Co
 					rr, err := requestWithRedirect(r, cr.Metadata.RedirectedURL)
 					if err != nil {
 						writeError(*w, err)
+						return
+					}
+					redirects++
+					if redirects > maxRedirects {
+						writeError(*w, usererror.CreateError(508, "Loop detected"))
 						return
 					}
 					cachingFunc(w, rr, rr.URL, alwaysInclude, &rf, false)
@@ -416,6 +439,12 @@ func cachingHandler(router proxy.Router, logger *apexlog.Logger, conf *config.Co
 						redirectedUrl.Scheme = reqres.OriginalURL.Scheme
 						cr.Writer.SetRedirectedURL(redirectedUrl)
 						if rf.RestartOnRedirect {
+							redirects++
+							if redirects > maxRedirects {
+								err = usererror.CreateError(508, "Loop detected")
+								writeError(*w, err)
+								return
+							}
 							cr.Writer.SetClientWritesDisabled()
 							clientWritesDisabled = true
 							rr := r.Clone(r.Context())
